@@ -355,8 +355,11 @@ class Driver:
 
     def op_leave(self, m, i):
         exc = None
+        self.nleave = getattr(self, "nleave", 0) + 1
         try:
-            _m(self.env(m), "remove_agent", "removeAgent")("".join(list(i)))      # an equal identifier, not the same string object
+            # every fifth departure goes through the deprecated (still public) spelling removeAgent: one more way of leaving
+            rm = self.env(m).removeAgent if self.nleave % 5 == 0 else _m(self.env(m), "remove_agent", "removeAgent")
+            rm("".join(list(i)))      # an equal identifier, not the same string object
         except Exception as e:  # noqa: BLE001
             exc = e
         self.emit({"op": "leave", "m": m, "id": i}, exc)
